@@ -355,7 +355,7 @@ def check():
     o.extra["paths_executed"] = ex.paths
 
     # ---- replay / translator validation on the real CLI --------------------------------
-    need_replay = bool(bad_fields) or tier() == "thorough"
+    need_replay = True   # the real-CLI round trip is cheap: always run it as translator validation
     if need_replay:
         diffs, rdir, detail = real_cli_roundtrip(o)
         o.extra["real_cli_roundtrip"] = {"diffs": diffs, "detail": detail}
